@@ -90,12 +90,32 @@ static void run_list(int first) {
 extern void (*lex_progs[])(void); extern int n_lex_progs;
 #endif
 
+/* every ordered pair (filter F, thrown T) of the built-in exception kinds, plus two kinds defined here: the inner handler
+   runs exactly when F and T are the same kind, otherwise the enclosing catch-all gets T; the bound object is T */
+static var UserErrA, UserErrB;
+static void run_pairs(void) {
+  var K[18] = { TypeError, ValueError, ClassError, IndexOutOfBoundsError, KeyError, OutOfMemoryError, IOError, FormatError, BusyError,
+                ResourceError, ProgramAbortedError, DivisionByZeroError, IllegalInstructionError, ProgramInterruptedError,
+                SegmentationError, ProgramTerminationError, UserErrA, UserErrB };
+  for (int fi = 0; fi < 18; fi++) for (int ti = 0; ti < 18; ti++) {
+    volatile int inner = 0, outer = 0, bound = -1, after = 0; volatile long d0 = depth_now();
+    try {
+      try { throw(K[ti], "pair %i %i", $I(fi), $I(ti)); } catch (e in K[fi]) { inner++; for (int k = 0; k < 18; k++) if (e == K[k]) bound = k; }
+      after = 1;
+    } catch (e) { outer++; for (int k = 0; k < 18; k++) if (e == K[k]) bound = k; }
+    ev_begin("pair"); ev_int("f", fi); ev_int("t", ti); ev_int("inner", inner); ev_int("outer", outer); ev_int("bound", bound);
+    ev_int("after", after); ev_int("d0", d0); ev_int("d1", depth_now()); ev_end();
+  }
+}
+
 int main(int argc, char** argv) {
   if (argc < 2) { fprintf(stderr, "usage: h_exc script [out]\n"); return 9; }
+  UserErrA = new_root(Type, $S("UserErrA"), $I(0)); UserErrB = new_root(Type, $S("UserErrB"), $I(0));
   FILE* f = fopen(argv[1], "r"); if (!f) { perror(argv[1]); return 9; }
   if (argc > 2) { ev_fd = open(argv[2], O_WRONLY | O_CREAT | O_TRUNC | O_APPEND, 0644); if (ev_fd < 0) { perror(argv[2]); return 9; } }
   while (hc_next(f)) {
     if (hc_is(0, "reset")) { cur_exec++; ev_begin("reset"); ev_int("line", cur_line); ev_end(); continue; }
+    if (hc_is(0, "pairs")) { hc_install(0); alarm(30); run_pairs(); alarm(0); continue; }
     if (!hc_is(0, "prog") && !hc_is(0, "lex")) { fprintf(stderr, "unknown op %s\n", hc_w[0]); return 9; }
     ev_flush();
     int pfd[2]; if (pipe(pfd)) return 9;
